@@ -79,6 +79,8 @@ PAIR_POOL = [
     "f = open('data.txt')\nprint(f.read())\n",
     "opts = {}\nprint(sorted(**opts))\n",
     "from dataclasses import dataclass\nwhat = dataclass()\n",
+    "n = 3\nsquares = [n * n for n in range(4)]\nprint(squares, n)\n",
+    "k = 'a'\nlookup = {k: len(k) for k in ['x', 'yy']}\nbag = {k for k in 'abc'}\nprint(lookup, bag, k, sum(k for k in [1, 2]))\n",
     "items = [3, 1]\nprint(sorted(items), list(reversed(items)), list(filter(None, items)))\n",
     "word = 'abc'\nword.foo = 1\nprint(word)\n",
     "word = 'abc'\nprint(word.foo + 1)\n",
@@ -187,6 +189,24 @@ def judge(case):
                           % (issues_of(r4), r4.success, i1, r1.success, code[:300])))
     except BaseException as e:
         viol.append(V('C18|raises-on-repeat:%s' % type(e).__name__, 'analysis in a fresh report raised %r' % e))
+    # the same analysis with the submission placed further down a file (what sections do): every line moves by exactly the offset
+    try:
+        offset = 7
+        from pedal.core.commands import contextualize_report
+        from pedal.core.report import MAIN_REPORT as _R
+        _R.full_clear()
+        contextualize_report(code)
+        _R.submission.set_line_offset(offset)
+        r6 = tifa_analysis()
+        shifted = {label: sorted(((name, (line + offset) if line is not None else None) for name, line in items), key=repr) for label, items in i1.items()}
+        if r6.success == r1.success and issues_of(r6) != shifted:
+            got6 = issues_of(r6)
+            label = next((l for l in set(got6) | set(shifted) if got6.get(l) != shifted.get(l)), '?')
+            viol.append(V('C18|line-offset-not-uniform|%s' % label, 'with a line offset of %d the issues are %r; without offset %r; code:\n%s'
+                          % (offset, got6.get(label), i1.get(label), code[:300])))
+        classes.append('with-line-offset')
+    except BaseException as e:
+        viol.append(V('C18|raises-on-repeat:%s' % type(e).__name__, 'analysis with a line offset raised %r' % e))
     n_lines = max(len(code.splitlines()), 1)
     for label, items in i1.items():
         for name, line in items:
@@ -264,6 +284,8 @@ def sweep(tier):
 def corpus_cases(tier):
     for code in G.corpus(stdlib=(tier == 'thorough')):
         yield {'code': code}
+    for code in PAIR_POOL:          # the hand-written corner programs also go through the single-program oracles
+        yield {'code': code, 'must_complete': False, 'tag': 'program'}
 
 
 ENUMS = {'sweep': sweep, 'corpus': corpus_cases, 'pairs': pairs}
